@@ -8,7 +8,7 @@ use xeh::prelude::*;
 pub const DEF: PropDef = PropDef {
     id: "C06",
     rule: "histories of <=30 (quick) / <=60 (thorough) parsing words, one word per eval, on an interpreter whose input is a generated bit-string (0-200 bits, start/end at every alignment via the API or a literal, nested open-bitstr of literals and of slices read from the current input). \
-Words: bits bytes u8..i64(le|be) int uint f32 f64 float magic seek find remain offset nulbytestr cstr open-bitstr close-bitstr big little; size/position arguments valid, just past the end, and from {2^31,2^61,2^63-1,2^63,2^64-1,2^64,2^64+k,i128 max,-1,i128 min}. \
+Words: bits bytes u8..i64(le|be) int uint f32 f64 float magic seek find remain offset nulbytestr cstr open-bitstr close-bitstr big little; size/position arguments valid, just past the end, and from {2^31,2^61,2^63-1,2^63,2^64-1,2^64,2^64+k,i128 max,-1,i128 min}; 1 read in 8 runs with the data stack full (stack limit = current depth), so the value cannot be delivered and the read must fail leaving everything as it was. \
 A stack-of-cursors model with unbounded-integer arithmetic predicts success/failure, the returned bits/number/text and the new cursor; after every op input, offset, remain and the data stack below the operands are read back and compared. \
 Non-trivial = the history has a failing op followed by a succeeding read, or a nested open/close, or an unaligned read; distinct = hash of the op list",
     assumptions: &[
@@ -145,6 +145,7 @@ pub fn case(ch: &mut Choices, ctx: &CaseCtx) -> CaseOut {
     let mut fail_then_read = false;
     let mut nested = false;
     let mut unaligned_read = false;
+    let mut stack_full_reads = 0usize;
     let nops = 1 + ch.below(max_ops);
     for _ in 0..nops {
         if out.fail.is_some() {
@@ -426,10 +427,24 @@ pub fn case(ch: &mut Choices, ctx: &CaseCtx) -> CaseOut {
                 expect = Expect::Structural;
             }
         }
-        log.push(src.clone());
+        // 1 op in 8: the data stack is full (stack limit = what it holds), so the value cannot be delivered: the read
+        // fails like any other failing read - nothing consumed, nothing changed
+        let full = matches!(kind, 0 | 1 | 2 | 3 | 4 | 5 | 7 | 8 | 9) && ch.chance(1, 8);
+        let expect = if full { Expect::Fail } else { expect };
+        if full {
+            xs.set_stack_limit(Some(xs.data_depth())).unwrap();
+            stack_full_reads += 1;
+            log.push(format!("{}    (with the stack limit set to the {} items it holds)", src, xs.data_depth()));
+        } else {
+            log.push(src.clone());
+        }
         // ---- run ---------------------------------------------------------
         let depth_before = xs.data_depth();
-        let res = match guard(|| xs.eval(&src)) {
+        let res = guard(|| xs.eval(&src));
+        if full {
+            xs.set_stack_limit(None).unwrap();
+        }
+        let res = match res {
             Ok(r) => r,
             Err(pm) => {
                 out.fail(format!("panic: {}", pm), format!("history:\n{}", log.join("\n")));
@@ -638,6 +653,9 @@ pub fn case(ch: &mut Choices, ctx: &CaseCtx) -> CaseOut {
     out.nontrivial = fail_then_read || nested || unaligned_read;
     if fail_then_read {
         out.class("fail-then-read");
+    }
+    if stack_full_reads > 0 {
+        out.class("read-refused-by-full-stack");
     }
     if nested {
         out.class("nested-open");
